@@ -1,1 +1,178 @@
-//! Helpers for driving the real interpreter (grown by the VM checks).
+//! Helpers for driving the real interpreter. Everything goes through the public API
+//! (+ `test-helpers`) of fuel-vm; nothing here is an oracle.
+
+use fuel_asm::{
+    Instruction,
+    PanicReason,
+    RawInstruction,
+    RegId,
+};
+use fuel_tx::{
+    ConsensusParameters,
+    Finalizable,
+    Script,
+    TransactionBuilder,
+};
+use fuel_types::BlockHeight;
+use fuel_vm::{
+    checked_transaction::{
+        IntoChecked,
+        Ready,
+    },
+    error::InterpreterError,
+    interpreter::{
+        Interpreter,
+        InterpreterParams,
+        MemoryInstance,
+    },
+    state::ExecuteState,
+    storage::MemoryStorage,
+};
+
+pub type Vm = Interpreter<MemoryInstance, MemoryStorage, Script>;
+
+pub const REGS: usize = 64;
+
+/// What one injected / fetched instruction did.
+#[derive(Debug, Clone, PartialEq, Eq, Hash)]
+pub enum Step {
+    /// Executed; the VM wants to continue.
+    Proceed,
+    Return(u64),
+    ReturnData([u8; 32]),
+    Revert(u64),
+    /// A well-formed VM panic with its reason.
+    Panic(PanicReason),
+    /// Any other interpreter error (storage, bug, …), rendered.
+    Error(String),
+    /// The host function unwound (a Rust panic inside the subject).
+    HostPanic(String),
+    Debug,
+}
+
+impl Step {
+    pub fn label(&self) -> String {
+        match self {
+            Step::Proceed => "proceed".into(),
+            Step::Return(_) => "return".into(),
+            Step::ReturnData(_) => "returndata".into(),
+            Step::Revert(_) => "revert".into(),
+            Step::Panic(r) => format!("panic:{r:?}"),
+            Step::Error(e) => format!("error:{}", e.chars().take(40).collect::<String>()),
+            Step::HostPanic(_) => "HOST-PANIC".into(),
+            Step::Debug => "debug".into(),
+        }
+    }
+
+    pub fn panic_reason(&self) -> Option<PanicReason> {
+        match self {
+            Step::Panic(r) => Some(*r),
+            _ => None,
+        }
+    }
+}
+
+fn classify<E: core::fmt::Debug>(r: Result<Result<ExecuteState, InterpreterError<E>>, String>) -> Step {
+    match r {
+        Err(m) => Step::HostPanic(m),
+        Ok(Ok(ExecuteState::Proceed)) => Step::Proceed,
+        Ok(Ok(ExecuteState::Return(w))) => Step::Return(w),
+        Ok(Ok(ExecuteState::ReturnData(d))) => Step::ReturnData(*d),
+        Ok(Ok(ExecuteState::Revert(w))) => Step::Revert(w),
+        Ok(Ok(ExecuteState::DebugEvent(_))) => Step::Debug,
+        Ok(Err(InterpreterError::PanicInstruction(p))) => Step::Panic(*p.reason()),
+        Ok(Err(InterpreterError::Panic(p))) => Step::Panic(p),
+        Ok(Err(e)) => Step::Error(format!("{e:?}")),
+    }
+}
+
+/// Inject one instruction (script/contract context). Does not fetch from `$pc`.
+pub fn inject(vm: &mut Vm, ins: Instruction) -> Step {
+    let raw: RawInstruction = ins.into();
+    classify(crate::guard::catch_any(|| vm.instruction::<_, false>(raw)))
+}
+
+/// Inject one raw 32-bit word.
+pub fn inject_raw(vm: &mut Vm, raw: u32) -> Step {
+    classify(crate::guard::catch_any(|| vm.instruction::<_, false>(raw)))
+}
+
+/// Inject one raw word in predicate mode.
+pub fn inject_raw_predicate(vm: &mut Vm, raw: u32) -> Step {
+    classify(crate::guard::catch_any(|| vm.instruction::<_, true>(raw)))
+}
+
+/// Execute the instruction at `$pc` (fetch + executable-region check).
+pub fn step(vm: &mut Vm) -> Step {
+    classify(crate::guard::catch_any(|| vm.execute::<false>()))
+}
+
+pub fn regs(vm: &Vm) -> [u64; REGS] {
+    let mut r = [0u64; REGS];
+    r.copy_from_slice(vm.registers());
+    r
+}
+
+pub fn reg(vm: &Vm, id: RegId) -> u64 {
+    vm.registers()[id.to_u8() as usize]
+}
+
+pub fn set_reg(vm: &mut Vm, idx: usize, v: u64) {
+    vm.registers_mut()[idx] = v;
+}
+
+/// Default consensus parameters (the `test-helpers` "standard" set).
+pub fn consensus() -> ConsensusParameters {
+    ConsensusParameters::standard()
+}
+
+/// Build a ready script transaction with one base-asset fee input (deterministic).
+/// `tweak` may add inputs/outputs/policies before finalisation.
+pub fn ready_script(
+    script: Vec<u8>,
+    data: Vec<u8>,
+    gas_limit: u64,
+    params: &ConsensusParameters,
+    tweak: impl FnOnce(&mut TransactionBuilder<Script>),
+) -> Ready<Script> {
+    let mut b = TransactionBuilder::script(script, data);
+    b.with_params(params.clone());
+    b.script_gas_limit(gas_limit);
+    b.max_fee_limit(0);
+    b.add_fee_input();
+    tweak(&mut b);
+    let tx = b.finalize();
+    tx.into_checked_basic(BlockHeight::new(0), params)
+        .expect("harness script tx must pass basic checks")
+        .test_into_ready()
+}
+
+/// A VM initialised for `ready` over `storage`, positioned at the first script
+/// instruction (nothing executed yet).
+pub fn vm_over(ready: Ready<Script>, storage: MemoryStorage, params: &ConsensusParameters) -> Vm {
+    let ip = InterpreterParams::new(0, params);
+    let mut vm: Vm = Interpreter::with_storage(MemoryInstance::new(), storage, ip);
+    vm.init_script(ready).expect("init_script");
+    vm
+}
+
+/// Convenience: VM for a script given as instructions, generous gas, empty storage.
+pub fn vm_for_script(script: &[Instruction], data: Vec<u8>, gas_limit: u64) -> Vm {
+    let bytes: Vec<u8> = script.iter().copied().collect();
+    let params = consensus();
+    let ready = ready_script(bytes, data, gas_limit, &params, |_| {});
+    vm_over(ready, MemoryStorage::default(), &params)
+}
+
+/// Run the VM from its current `$pc` until it stops (return/revert/panic/error) or
+/// `max_steps` instructions were executed. Returns the last step and the count.
+pub fn run_until_stop(vm: &mut Vm, max_steps: u64) -> (Step, u64) {
+    let mut n = 0;
+    loop {
+        let s = step(vm);
+        n += 1;
+        if s != Step::Proceed || n >= max_steps {
+            return (s, n)
+        }
+    }
+}
